@@ -34,8 +34,17 @@ Fixpoint list_eqb {A} (eqb : A -> A -> bool) (a b : list A) : bool :=
   end.
 
 (* objects grouped by library (library code ascending), order inside a library kept *)
+Fixpoint insert_uid (x : nat * N) (l : list (nat * N)) : list (nat * N) :=
+  match l with
+  | [] => [x]
+  | y :: r => if N.leb (snd x) (snd y) then x :: l else y :: insert_uid x r
+  end.
+Definition sort_uid (l : list (nat * N)) : list (nat * N) := fold_right insert_uid [] l.
+
+(* by library, and inside a library by element index: since /repo e99e57c collada.nodes is
+   re-sorted into document order after the retry passes, so append order is not observable *)
 Definition group (vals : list (nat * N)) : list (nat * N) :=
-  flat_map (fun l => filter (fun v => Nat.eqb (fst v) l) vals) (seq 0 12).
+  flat_map (fun l => sort_uid (filter (fun v => Nat.eqb (fst v) l) vals)) (seq 0 12).
 
 (* one observed run: mask, escaping class code (0 = completed), errors, library contents *)
 Definition run := (mask * nat * list nat * list (nat * N))%type.
